@@ -17,6 +17,8 @@ from models import Models, deref, some, none
 from treegen import TreeGen
 
 PID = 'C16'
+UNWRAP_HOOKS = [('unwrap_node_symbol_keyword', ('Symbol', 'Keyword')), ('unwrap_node_keyword_symbol', ('Keyword', 'Symbol')),
+                ('unwrap_node_whitespace_locate', ('WhiteSpace', 'Locate')), ('unwrap_node_locate', ('Locate',)), ('unwrap_locate_of', ('Locate',))]
 _tg = None
 
 
@@ -153,6 +155,33 @@ def work(tc):
                 got = r.fields[0] if r.variant == 'Some' else None
                 if got != want or (got is not None and it.env.get('last_get_unchecked') != (ls[0], ls[-1] + 1)):
                     notes.append('%s(%s) returns bytes %r, expected [%d,%d)' % (fn.name.split('::')[-1], name, it.env.get('last_get_unchecked'), ls[0], ls[-1] + 1))
+        # (g) unwrap_node! / unwrap_locate! (their expansions, instantiated by the hooks of sv-parser/src/lib.rs): the first node in
+        #     pre-order whose kind is among the requested ones, whatever the order in which the kinds are listed
+        okk, rn = mdl.call_mir(it, 'from', [vref], ret='RefNode', trait='From')
+        if okk:
+            okk2, itv5 = mdl.call_mir(it, 'into_iter', [rn], trait='IntoIterator')
+            nodes = drain(it, f_iter_next, itv5) if okk2 else []
+            for hook, kinds in UNWRAP_HOOKS:
+                fh = E.fn(hook)
+                r = it.concretize(it.run_func(fh, [rn]))
+                want = next((x for x in nodes if x.variant in kinds), None)
+                if want is None:
+                    if r.variant != 'None':
+                        notes.append('%s on %s returns %s, no node of kinds %s exists' % (hook, name, refnode_label(r.fields[0]) if hook != 'unwrap_locate_of' else 'a Locate', kinds))
+                    continue
+                if r.variant != 'Some':
+                    notes.append('%s on %s returns None, expected %s' % (hook, name, refnode_label(want)))
+                    continue
+                got = r.fields[0]
+                if hook == 'unwrap_locate_of':
+                    same_node = deref(got) is deref(want.fields[0])
+                    glabel = 'Locate@%s' % deref(got).fields[0]
+                else:
+                    same_node = got.variant == want.variant and deref(got.fields[0]) is deref(want.fields[0])
+                    glabel = refnode_label(got)
+                if not same_node:
+                    notes.append('%s on %s returns %s, the first node of kinds %s in pre-order is %s (position %d)' % (
+                        hook, name, glabel, kinds, refnode_label(want), nodes.index(want)))
         # (f) get_str_trim of the node's children tuple (&x.nodes: several roots at once)
         if type(val) is Struct and val.fields and type(val.fields[0]) is Tup and len(val.fields[0].fields) > 1:
             try:
@@ -218,7 +247,7 @@ def main():
                       rule='one case per node type (all 1243 RefNode variants); shapes: every top-level Option present/absent, every top-level Vec of length 0/1/2, every variant of a top-level enum, '
                            'with at most 1 (quick) / 2 (thorough) deviations from the fullest shape at once, chosen by z3; deeper levels take the cheapest shape; all traversal code from MIR',
                       bounds={'tier': args.tier, 'depth budget': 3, 'simultaneous deviations': '1 quick / 2 thorough'},
-                      outside=['shapes beyond the deviation bound', 'unwrap_node!/unwrap_locate! (macros: a for + match over this iteration, no MIR of their own)', 'trees deeper than the budget'],
+                      outside=['shapes beyond the deviation bound', 'instantiations of unwrap_node! with other kind lists than the five of the hooks (Symbol|Keyword in both orders, WhiteSpace|Locate, Locate, unwrap_locate!)', 'trees deeper than the budget'],
                       assumptions=['rustc nightly MIR = semantics of the built code', 'Vec/Option/Box models; str::get_unchecked recorded', 'reference walk lib/treegen.py (declared field order from the sources)'],
                       sample_sym='c0..ck (shape choices)')
 
